@@ -482,9 +482,14 @@ impl EnfWorld {
                     let mut out = String::new();
                     for r in reqs.split(';') {
                         let vals: Vec<Dynamic> = if r == "|" { vec![] } else { r.split(',').map(parse_val).collect() };
+                        // a plain request goes through enforce, enforce_mut or enforce_ex (same decision by specification);
+                        // which one is a function of the request text
+                        let v = variant(&[r]) % 4;
                         let res = catch(|| if ctx {
                             with_e!(&*e, x => x.enforce_with_context(EnforceContext::new(&unesc(f[1])), vals))
-                        } else { with_e!(&*e, x => x.enforce(vals)) });
+                        } else if v == 1 { with_e!(&mut *e, x => x.enforce_mut(vals)) }
+                        else if v == 2 { with_e!(&*e, x => x.enforce_ex(vals).map(|r| r.0)) }
+                        else { with_e!(&*e, x => x.enforce(vals)) });
                         out.push(out_c(res));
                     }
                     out
